@@ -3,7 +3,9 @@ package main
 import (
 	"fmt"
 	"go/ast"
+	"go/token"
 	"go/types"
+	"sort"
 	"strings"
 )
 
@@ -104,4 +106,285 @@ func rikIntervalKeys(w *World) {
 		w.ok("end-immutable", ent.Obj().Pos(), "no assignment to the End of an entry anywhere in the package")
 	}
 	_ = strings.TrimSpace
+}
+
+// RIK2 (C40): every entry put into the intersection map is a non-empty interval. Insert cuts the
+// new interval and the entries it overlaps into pieces and stores each piece as
+// &Entry{Start: S, End: E, …} under the key E. A piece with S > E is empty; stored under key E it
+// *replaces* whatever non-empty entry already ends at E, so the points of that entry are lost and
+// Entries() is no longer a partition of the inserted intervals. For each such literal the rule
+// collects its path condition — the conditions of the enclosing ifs (with polarity), the negated
+// conditions of earlier early-exit guards, calls of Entry.Contains inlined from its body — and
+// checks on a finite model (every integer operand ranging over -2..3, under the inductive
+// assumption that entries already in the map are non-empty) that the condition implies S <= E.
+// The expressions are read from the source and evaluated; no repository code runs.
+func rik2NonEmptyPieces(w *World) {
+	w.rule("RIK2")
+	p := w.pkg("internal/interval")
+	ent := w.typ("internal/interval", "Entry")
+	ins := w.fn("internal/interval", "(*Intersect).Insert")
+	contains := w.fn("internal/interval", "Entry.Contains")
+	if p == nil || ent == nil || ins == nil {
+		return
+	}
+	info := p.TypesInfo
+	parents := parentMap(ins.Decl)
+	isIntExpr := func(e ast.Expr) bool {
+		t := info.TypeOf(e)
+		if t == nil {
+			return false
+		}
+		if tp, ok := t.(*types.TypeParam); ok {
+			_ = tp
+			return true // K Endpoint (an integer type parameter)
+		}
+		bt, ok := t.Underlying().(*types.Basic)
+		return ok && bt.Info()&types.IsInteger != 0
+	}
+	terminates := func(bl *ast.BlockStmt) bool {
+		if len(bl.List) == 0 {
+			return false
+		}
+		switch s := bl.List[len(bl.List)-1].(type) {
+		case *ast.ReturnStmt:
+			return true
+		case *ast.BranchStmt:
+			return s.Tok == token.CONTINUE || s.Tok == token.BREAK
+		case *ast.ExprStmt:
+			if c, ok := s.X.(*ast.CallExpr); ok && isBuiltinCall(info, c, "panic") {
+				return true
+			}
+		}
+		return false
+	}
+	n := 0
+	ast.Inspect(ins.Decl.Body, func(x ast.Node) bool {
+		cl, ok := x.(*ast.CompositeLit)
+		if !ok {
+			return true
+		}
+		t := info.TypeOf(cl)
+		nt, ok := t.(*types.Named)
+		if !ok || nt.Origin() != ent.Origin() {
+			return true
+		}
+		var S, E ast.Expr
+		for _, el := range cl.Elts {
+			if kv, ok := el.(*ast.KeyValueExpr); ok {
+				switch render(kv.Key) {
+				case "Start":
+					S = kv.Value
+				case "End":
+					E = kv.Value
+				}
+			}
+		}
+		if S == nil || E == nil {
+			return true
+		}
+		n++
+		// path condition
+		type lit struct {
+			e     ast.Expr
+			truth bool
+		}
+		var conds []lit
+		var child ast.Node = cl
+		for cur := parents[cl]; cur != nil; child, cur = cur, parents[cur] {
+			if ifs, ok := cur.(*ast.IfStmt); ok {
+				if child == ast.Node(ifs.Body) {
+					conds = append(conds, lit{ifs.Cond, true})
+				} else if ifs.Else != nil && child == ast.Node(ifs.Else) {
+					conds = append(conds, lit{ifs.Cond, false})
+				}
+			}
+			if list, idx := containingList(parents, child); idx > 0 {
+				for j := 0; j < idx; j++ {
+					if g, ok := list[j].(*ast.IfStmt); ok && g.Else == nil && g.Init == nil && terminates(g.Body) {
+						conds = append(conds, lit{g.Cond, false})
+					}
+				}
+			}
+		}
+		// atoms: integer identifiers / field selections, nil tests as booleans
+		atoms := map[string]bool{}
+		entryVars := map[string]bool{} // x for which x.Start / x.End appear (entries of the map)
+		boolAtoms := map[string]bool{}
+		var collect func(e ast.Expr)
+		collect = func(e ast.Expr) {
+			ast.Inspect(e, func(y ast.Node) bool {
+				switch z := y.(type) {
+				case *ast.BinaryExpr:
+					if (z.Op == token.EQL || z.Op == token.NEQ) && (isNilIdent(info, z.Y) || isNilIdent(info, z.X)) {
+						boolAtoms[types.ExprString(z)] = true
+						return false
+					}
+				case *ast.CallExpr:
+					if sel, ok := ast.Unparen(z.Fun).(*ast.SelectorExpr); ok && sel.Sel.Name == "Contains" && len(z.Args) == 1 {
+						entryVars[render(sel.X)] = true
+						atoms[render(sel.X)+".Start"] = true
+						atoms[render(sel.X)+".End"] = true
+						collect(z.Args[0])
+						return false
+					}
+				case *ast.SelectorExpr:
+					if isIntExpr(z) {
+						atoms[render(z)] = true
+						if z.Sel.Name == "Start" || z.Sel.Name == "End" {
+							entryVars[render(z.X)] = true
+							atoms[render(z.X)+".Start"] = true
+							atoms[render(z.X)+".End"] = true
+						}
+						return false
+					}
+				case *ast.Ident:
+					if _, isVar := info.Uses[z].(*types.Var); isVar && isIntExpr(z) {
+						atoms[z.Name] = true
+					}
+				}
+				return true
+			})
+		}
+		collect(S)
+		collect(E)
+		for _, c := range conds {
+			collect(c.e)
+		}
+		var names []string
+		for a := range atoms {
+			names = append(names, a)
+		}
+		sort.Strings(names)
+		var bnames []string
+		for b := range boolAtoms {
+			bnames = append(bnames, b)
+		}
+		sort.Strings(bnames)
+		key := "non-empty-piece|" + types.ExprString(S) + ".." + types.ExprString(E)
+		if len(names) > 6 {
+			w.undecided(key, cl.Pos(), fmt.Sprintf("%d integer operands: finite model too large", len(names)))
+			return true
+		}
+		// evaluator with Contains inlining and boolean atoms
+		var evalB func(env *numEnv, bvals map[string]bool, e ast.Expr) (bool, bool)
+		evalB = func(env *numEnv, bvals map[string]bool, e ast.Expr) (bool, bool) {
+			e = ast.Unparen(e)
+			if v, ok := bvals[types.ExprString(e)]; ok {
+				return v, true
+			}
+			switch z := e.(type) {
+			case *ast.BinaryExpr:
+				if z.Op == token.LAND || z.Op == token.LOR {
+					a, ok1 := evalB(env, bvals, z.X)
+					b, ok2 := evalB(env, bvals, z.Y)
+					if !ok1 || !ok2 {
+						return false, false
+					}
+					if z.Op == token.LAND {
+						return a && b, true
+					}
+					return a || b, true
+				}
+			case *ast.UnaryExpr:
+				if z.Op == token.NOT {
+					a, ok := evalB(env, bvals, z.X)
+					return !a, ok
+				}
+			case *ast.CallExpr:
+				if sel, ok := ast.Unparen(z.Fun).(*ast.SelectorExpr); ok && sel.Sel.Name == "Contains" && len(z.Args) == 1 && contains != nil {
+					x := render(sel.X)
+					pt, ok := env.eval(z.Args[0])
+					if !ok {
+						return false, false
+					}
+					s0, e0 := env.vars[x+".Start"], env.vars[x+".End"]
+					return s0.i <= pt.i && pt.i <= e0.i, true
+				}
+			}
+			v, ok := env.eval(e)
+			if !ok || !v.isBool {
+				return false, false
+			}
+			return v.b, true
+		}
+		dom := []int64{-2, -1, 0, 1, 2, 3}
+		vals := make([]int, len(names))
+		bad := ""
+		undec := ""
+		total := 1
+		for range names {
+			total *= len(dom)
+		}
+		for it := 0; it < total && bad == "" && undec == ""; it++ {
+			k := it
+			env := &numEnv{info: info, vars: map[string]num{}}
+			for i := range names {
+				vals[i] = k % len(dom)
+				k /= len(dom)
+				env.vars[names[i]] = num{i: dom[vals[i]]}
+			}
+			// inductive assumption: entries of the map are non-empty
+			okInv := true
+			for x := range entryVars {
+				if env.vars[x+".Start"].i > env.vars[x+".End"].i {
+					okInv = false
+				}
+			}
+			if !okInv {
+				continue
+			}
+			for bm := 0; bm < 1<<len(bnames) && bad == "" && undec == ""; bm++ {
+				bvals := map[string]bool{}
+				for i, b := range bnames {
+					bvals[b] = bm&(1<<i) != 0
+				}
+				holds := true
+				for _, c := range conds {
+					v, ok := evalB(env, bvals, c.e)
+					if !ok {
+						undec = "cannot evaluate guard " + types.ExprString(c.e)
+						break
+					}
+					if v != c.truth {
+						holds = false
+						break
+					}
+				}
+				if undec != "" || !holds {
+					continue
+				}
+				sv, ok1 := env.eval(S)
+				ev, ok2 := env.eval(E)
+				if !ok1 || !ok2 {
+					undec = "cannot evaluate the bounds"
+					break
+				}
+				if sv.i > ev.i {
+					var parts []string
+					for i, nm := range names {
+						parts = append(parts, fmt.Sprintf("%s=%d", nm, dom[vals[i]]))
+					}
+					bad = fmt.Sprintf("%s gives the piece [%d, %d]", strings.Join(parts, ", "), sv.i, ev.i)
+				}
+			}
+		}
+		var gs []string
+		for _, c := range conds {
+			g := types.ExprString(c.e)
+			if !c.truth {
+				g = "!(" + g + ")"
+			}
+			gs = append(gs, g)
+		}
+		switch {
+		case undec != "":
+			w.undecided(key, cl.Pos(), undec)
+		case bad != "":
+			w.violation(key, cl.Pos(), "the guards "+strings.Join(gs, " && ")+" do not imply Start <= End for this piece: "+bad+" — an empty entry, stored under its End, replaces the non-empty entry that already ends there, so the points of that entry are lost")
+		default:
+			w.ok(key, cl.Pos(), fmt.Sprintf("on the finite model (%d operands over -2..3) the guards %s imply Start <= End", len(names), strings.Join(gs, " && ")))
+		}
+		return true
+	})
+	w.floor("Entry pieces created by Intersect.Insert", n, 5)
 }
